@@ -23,7 +23,7 @@ RULE = ('every (at_round in 0..Nr, after_step in 0..3, direction) stop point is 
 ASSUMPTIONS = ['vf.refs.aes_ref is a correct FIPS-197 implementation (self-tested against appendix A/C vectors and pycryptodome)',
                'byte values are given in an integer dtype able to hold them (int8 only up to 127)']
 
-DTYPES = ['uint8', 'int16', 'int32', 'int64', 'uint16', 'uint64', 'uint32', 'int8']
+DTYPES = ['uint8', 'int16', 'int32', 'int64', 'uint16', 'uint64', 'uint32', 'int8', '>u2', '>i4', '>u8']       # incl. non-native byte order
 SHAPES = ['one_one', 'many_one', 'one_many', 'paired']
 
 
@@ -54,6 +54,9 @@ def cases(tier, seed):
                 out.append(dict(gen='stops', nk=nk, dir=direction, shape=SHAPES[k % 4], dtype=DTYPES[k % len(DTYPES)],
                                 struct=struct, n=3, sub=core.subseed('C05', seed, k), must=True))
                 k += 1
+            out.append(dict(gen='stops', nk=nk, dir=direction, shape=['one_many', 'paired'][k % 2], dtype='uint8', struct='uniform_keys', n=5, sub=core.subseed('C05u', seed, k), must=True))
+            k += 1
+    out.append(dict(gen='threads', sub=core.subseed('C05t', seed), must=True))
     # walking byte: all 256 values at one position of the block (many_one) or of the key (one_many)
     positions = range(16) if tier == 'thorough' else [(seed + 5 * j) % 16 for j in range(3)]
     for nk in (16, 24, 32):
@@ -103,6 +106,14 @@ def _build_inputs(case, rng):
     nk, n, struct, shape = case['nk'], case['n'], case['struct'], case['shape']
     dt = np.dtype(case['dtype'])
     hi = 128 if dt == np.dtype('int8') else 256
+    if struct == 'uniform_keys':
+        # every key is one byte repeated, the keys of the batch differ (a batch of 'constant' keys is not a constant batch)
+        nb = 1 if shape in ('one_one', 'one_many') else n
+        nkeys = 1 if shape in ('one_one', 'many_one') else n
+        blocks = rng.integers(0, hi, (nb, 16))
+        vals = rng.permutation(hi)[:nkeys]
+        keys = np.repeat(vals[:, None], nk, axis=1)
+        return blocks, keys
     nb = 1 if shape in ('one_one', 'one_many') else n
     nkeys = 1 if shape in ('one_one', 'many_one') else n
     blocks = rng.integers(0, hi, (nb, 16))
@@ -149,6 +160,8 @@ def run_case(case):
 
     if g == 'history':
         return _history(t, case)
+    if g == 'threads':
+        return _threads(t, case)
     rng = np.random.default_rng(case['sub'])
     blocks, keys = _build_inputs(case, rng)
     dt = np.dtype(case['dtype'])
@@ -208,6 +221,59 @@ def run_case(case):
     t.check(_tables_digest() == _T0, 'shared_table_modified', lambda: dict(case=case))
     sig = '|'.join(str(case.get(k)) for k in ('nk', 'dir', 'shape', 'dtype', 'struct', 'pos', 'n', 'sub'))
     return t.result(sig=sig, sample=dict(case=case, stop_points=(nr + 1) * 4, blocks=n, comparisons=t.checks))
+
+
+def _threads(t, case):
+    """Two threads call the cipher at the same time with different inputs (per-call state must not be shared between calls)."""
+    import sys
+    import threading
+    import scared
+    rng = np.random.default_rng(case['sub'])
+    jobs = []
+    for j in range(2):
+        for c in range(25):
+            nk = int(rng.choice([16, 24, 32]))
+            n = int(rng.choice([1, 3, 400]))
+            key = rng.integers(0, 256, nk).astype('uint8')
+            blk = rng.integers(0, 256, (n, 16)).astype('uint8') if n > 1 else rng.integers(0, 256, 16).astype('uint8')
+            direction = ['enc', 'dec'][int(rng.integers(2))]
+            rnd, step = int(rng.integers(0, nk // 4 + 7)), int(rng.integers(0, 4))
+            jobs.append((j, direction, key, blk, rnd, step))
+    results = {}
+    errors = []
+
+    def work(j):
+        for idx, (jj, direction, key, blk, rnd, step) in enumerate(jobs):
+            if jj != j:
+                continue
+            try:
+                fn = scared.aes.encrypt if direction == 'enc' else scared.aes.decrypt
+                results[idx] = fn(blk, key, at_round=rnd, after_step=step)
+            except Exception as e:      # a shape / state error caused by the other thread is a witness as well
+                errors.append((idx, repr(e)[:200]))
+    old = sys.getswitchinterval()
+    sys.setswitchinterval(1e-5)
+    try:
+        ths = [threading.Thread(target=work, args=(j,)) for j in range(2)]
+        for th in ths:
+            th.start()
+        for th in ths:
+            th.join()
+    finally:
+        sys.setswitchinterval(old)
+    t.check(not errors, 'concurrent_call_failed', lambda: dict(errors=errors[:3]))
+    for idx, (jj, direction, key, blk, rnd, step) in enumerate(jobs):
+        if idx not in results:
+            continue
+        b2 = blk.reshape(-1, 16)
+        exp = np.array([(R.enc_states if direction == 'enc' else R.dec_states)(row.tolist(), key.tolist())[0][(rnd, step)] for row in b2[:3]], dtype='uint8')
+        got = np.asarray(results[idx]).reshape(-1, 16)[:3]
+        t.count('concurrent_calls')
+        t.count('stop_points')
+        t.check(np.array_equal(got, exp), 'result_depends_on_a_concurrent_call', lambda: dict(job=idx, thread=jj, direction=direction, at_round=rnd, after_step=step))
+    for c in ('roundtrips', 'inputs_unchanged', 'primitive_values', 'blocks', 'history_calls'):
+        t.count(c, 0)
+    return t.result(sig='threads', sample=dict(case=case, calls=len(jobs)))
 
 
 def _history(t, case):
@@ -289,6 +355,12 @@ def _primitives(t, case):
         t.check(got.shape == st.shape and np.array_equal(got, exp), 'prim_' + f.__name__, lambda: dict(f=f.__name__, got=got[0].tolist(), expected=exp[0].tolist()))
         got1 = f(_ro(st[3].copy()))
         t.check(got1.shape == (16,) and np.array_equal(got1, exp[3]), 'prim_1d_' + f.__name__, None)
+        # states with several leading dimensions (a, b, 16): every state is still processed on its own
+        for (a, b) in ((3, 3), (5, 2), (2, 1)):
+            st3 = np.asarray(st)[:a * b].reshape(a, b, 16)
+            g3 = f(_ro(st3.copy()))
+            t.count('primitive_values', a * b)
+            t.check(np.shape(g3) == (a, b, 16) and np.array_equal(np.asarray(g3).reshape(-1, 16), exp[:a * b]), 'prim_nd_' + f.__name__, lambda: dict(f=f.__name__, shape=[a, b, 16]))
         # the same states in other memory layouts (Fortran order, strided rows, a 3-D stack seen through swapaxes)
         for lname, view in (('fortran', np.asfortranarray(st)), ('strided', np.repeat(st, 2, axis=0)[::2]),
                             ('transposed_buffer', np.ascontiguousarray(np.asarray(st).T).T)):
